@@ -15,6 +15,7 @@ DOMAINS = {
     "lexer": {"letter": "L", "header_tokens": 3},
     "match": {"letter": "M", "header_tokens": 6},
     "p01": {"letter": "P", "header_tokens": 4}, "p02": {"letter": "P", "header_tokens": 4}, "p05": {"letter": "P", "header_tokens": 4},
+    "p04": {"letter": "P", "header_tokens": 4},
     "p06": {"letter": "P", "header_tokens": 4}, "p08": {"letter": "P8", "header_tokens": 4}, "p09": {"letter": "P9", "header_tokens": 4},
 }
 
@@ -111,6 +112,9 @@ PROPS["C09"] = _pprop("ScpiVerif.Props.C09", [{"name": "p09", "cfgs": ["A"]}], [
     "1..3 messages A (including failing ones, unfinished blocks, unterminated tails) then a message B; B on the used context is compared with B on a fresh context that was given the same registers and error queue")
 PROPS["C05"] = _pprop("ScpiVerif.Props.C05", [{"name": "p05", "cfgs": ["A"]}], ["C05."],
     "units pairing every typed reader (mandatory / optional, one to three readers, arrays, stop-on-failure) with parameter lists of 0..4 items of every data type, with white space around commas and malformed fragments")
+PROPS["C04"] = _pprop("ScpiVerif.Props.C04", [{"name": "p04", "cfgs": ["A"]}, {"name": "p05", "cfgs": ["A"]}], ["C04."],
+    "decimal literals of every shape (1..25 digits, sign, point, exponent, white space before the exponent and after its E), #H/#Q/#B literals up to the type width, integer width boundaries, through the six numeric readers and SCPI_ParamNumber; every row of the unit table in four casings and three separations; every special mnemonic in short and long form and three casings; judged bit-exactly against Spec/Float.lean (correctly rounded value of the literal) and the generated unit table",
+    ["translate/extract.py — scpi_units_def with multipliers as exact rationals, scpi_special_numbers_def"])
 PROPS["C01"] = _pprop("ScpiVerif.Props.C01", [{"name": "p01", "cfgs": ["A", "B", "C", "D"]}, {"name": "lexer", "cfgs": ["A"]}], ["C01."],
     "mutated messages (byte flips, deletions, insertions, syntax characters, truncation), input buffers of 2..200 bytes, queue capacities 1..4, random segmentation with over-long chunks and zero-length calls, in all four build configurations under ASan+UBSan with the buffer-tail poisoning hook")
 
@@ -139,11 +143,11 @@ _T["C20"] = ("Theorems text_intact_or_absent / empty_means_reusable / fits_means
 _T["C03"] = ("Theorems: for every pattern of the property's grammar that satisfies the side condition and every header over the header alphabet, the model of matchCommand accepts iff the header is in the pattern's short/long-form language, and reports the numeric suffixes in keyword order with the caller's default for omitted ones.",
             "Lean kernel + standard axioms; model tied to utils.c by pattern-directed differential testing; Spec/Pattern.lean is the reading of the property",
             "Lean 4 theorem (greedy walker = declarative language under the side condition) + differential correspondence")
-for _k in ("C02", "C06", "C08", "C09", "C05", "C01"):
+for _k in ("C02", "C06", "C08", "C09", "C05", "C01", "C04"):
     _T[_k] = ("(theorems in progress)", "Lean kernel + standard axioms; context model tied to parser.c by scripted differential testing", "Lean 4 theorems over the context model + differential correspondence")
 for _k, (_a, _b, _c) in _T.items():
     PROPS[_k]["level_text"], PROPS[_k]["level_note"], PROPS[_k]["technique"] = _a, _b, _c
 
 # properties whose theorem module is not complete yet are not claimed
-for _k in ("C03", "C02", "C06", "C08", "C09", "C05", "C01"):
+for _k in ("C03", "C02", "C06", "C08", "C09", "C05", "C01", "C04"):
     PROPS[_k]["unclaimed"] = True
